@@ -227,6 +227,26 @@ pub struct H1 {
     pub consumer: Consumer,
     pub reader_init_fails: bool,
     pub dataset_init_fail_at: Option<usize>,
+    /// use the Default-based wrapper `read_parallel` instead of `read_parallel_init` (no initialiser
+    /// can fail; data sets are untagged)
+    #[serde(default)]
+    pub plain: bool,
+}
+
+/// tag of a data set made by `Default` (plain wrapper)
+pub const UNTAGGED: usize = usize::MAX;
+
+thread_local! {
+    /// data sets made by `Default` on this OS thread (the calling thread creates all of them; under
+    /// the cooperative scheduler every thread of an execution shares one OS thread)
+    pub static DS_DEFAULTS: std::cell::Cell<usize> = std::cell::Cell::new(0);
+}
+
+impl Default for DS {
+    fn default() -> DS {
+        DS_DEFAULTS.with(|c| c.set(c.get() + 1));
+        DS { tag: UNTAGGED, fill: None, worked: None }
+    }
 }
 
 #[derive(Debug)]
@@ -255,7 +275,7 @@ impl seq_io::parallel::Reader for ScriptReader {
     type DataSet = DS;
     type Err = usize;
     fn fill_data(&mut self, d: &mut DS) -> Option<Result<(), usize>> {
-        if !self.tags.lock().unwrap().contains(&d.tag) {
+        if d.tag != UNTAGGED && !self.tags.lock().unwrap().contains(&d.tag) {
             violate(&self.x, "foreign-dataset", format!("fill_data got a data set with tag {} that the initialiser never created", d.tag));
         }
         if Some(self.next) == self.err_at {
@@ -288,36 +308,14 @@ pub fn run_h1(c: &H1, x: &ExecRef) {
         e.turn = turn;
     }
     let tags: Arc<Mutex<Vec<usize>>> = Arc::new(Mutex::new(vec![]));
+    DS_DEFAULTS.with(|c| c.set(0));
     let queue = c.queue;
     let cfg = c.clone();
     let (x1, x2, x3, x4) = (x.clone(), x.clone(), x.clone(), x.clone());
     let (t1, t2) = (tags.clone(), tags.clone());
     let mut init_calls = 0usize;
     let mut items: Vec<Ev> = vec![];
-    let res: Result<Vec<Ev>, HErr> = seq_io::parallel::read_parallel_init::<ScriptReader, HErr, _, HErr, usize, _, HErr, _, _, Vec<Ev>>(
-        c.threads,
-        c.queue,
-        move || {
-            if cfg.reader_init_fails {
-                log(&x1, Ev::ReaderInit { ok: false }, queue);
-                Err(HErr::ReaderInit)
-            } else {
-                log(&x1, Ev::ReaderInit { ok: true }, queue);
-                Ok(ScriptReader { next: 0, total: cfg.sets, err_at: cfg.err_at, x: x1.clone(), queue, tags: t1 })
-            }
-        },
-        move || {
-            let j = init_calls;
-            init_calls += 1;
-            if Some(j) == cfg_fail(&c.dataset_init_fail_at) {
-                log(&x2, Ev::DatasetInit { j, ok: false }, queue);
-                return Err(HErr::DatasetInit(j));
-            }
-            t2.lock().unwrap().push(j);
-            log(&x2, Ev::DatasetInit { j, ok: true }, queue);
-            Ok(DS { tag: j, fill: None, worked: None })
-        },
-        move |d: &mut DS| {
+    let work = move |d: &mut DS| {
             let k = match d.fill {
                 Some(k) => k,
                 None => violate(&x3, "work-on-unfilled", format!("worker got data set tag {} that was never filled", d.tag)),
@@ -326,8 +324,8 @@ pub fn run_h1(c: &H1, x: &ExecRef) {
             d.worked = Some(k);
             log(&x3, Ev::WorkEnd { k, tag: d.tag }, queue);
             k
-        },
-        |rsets| {
+        };
+    let func = |rsets: &mut seq_io::parallel::ParallelRecordsets<DS, usize, usize>| {
             let mut i = 0;
             loop {
                 if let Consumer::StopAfter(k) = c.consumer {
@@ -363,9 +361,41 @@ pub fn run_h1(c: &H1, x: &ExecRef) {
                 }
                 i += 1;
             }
-            items
-        },
-    );
+            std::mem::take(&mut items)
+        };
+    let res: Result<Vec<Ev>, HErr> = if c.plain {
+        // the Default-based wrapper: the reader is passed by value, data sets come from DS::default()
+        log(&x1, Ev::ReaderInit { ok: true }, queue);
+        let reader = ScriptReader { next: 0, total: cfg.sets, err_at: cfg.err_at, x: x1.clone(), queue, tags: t1 };
+        Ok(seq_io::parallel::read_parallel::<ScriptReader, usize, _, _, Vec<Ev>>(reader, c.threads, c.queue, work, func))
+    } else {
+        seq_io::parallel::read_parallel_init::<ScriptReader, HErr, _, HErr, usize, _, HErr, _, _, Vec<Ev>>(
+            c.threads,
+            c.queue,
+            move || {
+                if cfg.reader_init_fails {
+                    log(&x1, Ev::ReaderInit { ok: false }, queue);
+                    Err(HErr::ReaderInit)
+                } else {
+                    log(&x1, Ev::ReaderInit { ok: true }, queue);
+                    Ok(ScriptReader { next: 0, total: cfg.sets, err_at: cfg.err_at, x: x1.clone(), queue, tags: t1 })
+                }
+            },
+            move || {
+                let j = init_calls;
+                init_calls += 1;
+                if Some(j) == cfg_fail(&c.dataset_init_fail_at) {
+                    log(&x2, Ev::DatasetInit { j, ok: false }, queue);
+                    return Err(HErr::DatasetInit(j));
+                }
+                t2.lock().unwrap().push(j);
+                log(&x2, Ev::DatasetInit { j, ok: true }, queue);
+                Ok(DS { tag: j, fill: None, worked: None })
+            },
+            work,
+            func,
+        )
+    };
     log(x, Ev::Return { what: format!("{:?}", res.as_ref().map(|v| v.len())) }, queue);
     check_h1(c, x, &res, &tags.lock().unwrap());
 }
@@ -376,8 +406,9 @@ fn cfg_fail(f: &Option<usize>) -> Option<usize> {
 
 fn check_h1(c: &H1, x: &ExecRef, res: &Result<Vec<Ev>, HErr>, tags: &[usize]) {
     // C16: creations
-    if tags.len() > c.queue + 1 {
-        violate(x, "too-many-datasets", format!("{} data sets created with queue length {}", tags.len(), c.queue));
+    let created = if c.plain { DS_DEFAULTS.with(|c| c.get()) } else { tags.len() };
+    if created > c.queue + 1 {
+        violate(x, "too-many-datasets", format!("{} data sets created with queue length {}", created, c.queue));
     }
     // C15 / C08: initialisation failures come back as Err
     // Whether the failing initialiser call happens at all depends on the schedule: when the reader
